@@ -324,6 +324,9 @@ fn run_stream<S: Side>(side: &mut S, input: &[u8], cuts: &[usize]) -> Trace {
                                     detail: format!("length field {} consumed {}", l, eaten),
                                 });
                             }
+                            // accepting a frame longer than the protocol maximum is a protocol
+                            // error but none of the statement's failure modes: counted only
+                            Head::LengthAboveMax(_) => tr.counters.push("unjudged:oversize-frame-accepted"),
                             _ => {
                                 tr.findings.push(Finding {
                                     sig: format!("C03/trichotomy/{}/message-from-incomplete-frame", name),
